@@ -6,8 +6,8 @@ from loadlib import *
 ID = "C04"
 GEN = ["Candidates"]
 THEOREMS = ["C04_candidate_tables", "C04_use_names_documented", "C04_import_names_documented", "C04_code_shapes",
-            "C04_first_candidate", "C04_none_iff", "C04_direct", "C04_load_paths_in_order", "C04_root_allowed",
-            "C04_root_none_iff", "C04_css_fallback", "C04_subdir_resolution", "C04_refuted_subdir_unchanged",
+            "C04_first_candidate", "C04_none_iff", "C04_direct", "C04_load_paths_in_order", "C04_fallback_unchanged",
+            "C04_root_allowed", "C04_root_none_iff", "C04_subdir_allowed", "C04_css_fallback",
             "C04_refuted_subdir_loadpath", "C04_statement_refuted"]
 COQ_HEADER = ("From Coq Require Import String List ZArith NArith.\nFrom RV Require Import Gen.Candidates Model.Load Model.LoadRun Run.C04.\n"
               "Import ListNotations.\nLocal Open Scope string_scope.")
@@ -97,7 +97,7 @@ def gen_cases(ctx, tier):
     rng = ctx.rng
     cases = []
     # corpus: known-finding witnesses
-    cases.append(mk_fs("use", "b", True, ["L1/b.scss"]))                 # F9: unchanged url in a load path
+    cases.append(mk_fs("use", "b", True, ["L1/b.scss"]))                 # former F9 (fixed by 3dfdada): unchanged url in a load path
     cases.append(mk_fs("use", "c", True, ["L1/sub/c.scss"]))             # F9b: <load path>/sub/ taken as relative
     cases.append(mk_fs("use", "d", True, ["R/d.scss"]))                  # base directory not searched from sub/
     cases.append(mk_fs("import", "b", True, ["R/sub/_b.scss", "L1/sub/b.scss"]))
@@ -179,7 +179,7 @@ def coq_term(c, io):
             f"{cbool(c['unq'])} {coq_impl(d)})")
 
 
-KCLASS = {0: None, 1: "known_C04_K1_subdir_unchanged_url", 2: "known_C04_K2_subdir_loadpath_relative"}
+KCLASS = {0: None, 2: "known_C04_K2_subdir_loadpath_relative"}
 
 
 def judge(c, io, r):
@@ -200,8 +200,8 @@ LEVEL_TEXT = ("proof: for EVERY loader / file system (arbitrary function from pa
               "from context.rs, None iff none exists, load paths in order; the generated lists are proved to be the documented six "
               "(@use) and a linear extension of the documented partial order (@import), so for a root importer the result is one the "
               "property text allows; the plain-css condition regenerated from transform.rs equals the four documented forms; "
-              "sub-directory importers: refuted with two witnesses, model characterised; tied to the code by the translator and by "
+              "sub-directory importers (after fix 3dfdada): allowed outside class K2 for every file system, K2 refuted with a witness; tied to the code by the translator and by "
               "exact loader-call-log correspondence")
-LEVEL_NOTE = ("trusted: Coq kernel+vm_compute, gen/gens/Candidates.py, the harness, Spec/Resolve.v; F9 (importer in a "
-              "sub-directory) is recorded as two known-finding classes")
+LEVEL_NOTE = ("trusted: Coq kernel+vm_compute, gen/gens/Candidates.py, the harness, Spec/Resolve.v; F9 is fixed (3dfdada); "
+              "F9b (a <load path>/sub/ file taken as relative) remains a known-finding class")
 TECHNIQUE = "Coq proof (list induction over arbitrary file systems + table sweep) + translator + differential correspondence"
